@@ -1,7 +1,11 @@
 -- root of the `XrlC13` library (property C13): model, specification, lemmas, theorems
+-- (XrlC13.Gen.Crystal is written by tools/c13_c2lean.py from /repo's src/crystal_diffraction.c; setup.sh and ./check C13 regenerate it)
 import XrlC13.Core.Basic
 import XrlC13.Core.Proto
+import XrlC13.Core.Types
 import XrlC13.Hand.CrystalNum
 import XrlC13.Spec.Basic
 import XrlC13.Spec.Crystal
 import XrlC13.Props.C13
+import XrlC13.Gen.Crystal
+import XrlC13.Props.C13g
